@@ -197,6 +197,15 @@ func (sc *c13Sched) qDigest(q *UdpTaskQueue) string {
 		}
 		return "0"
 	}
+	switch {
+	case ovf >= 2:
+		sc.stats.Inc("tq.digest.overflow>=2")
+	case ovf == 1:
+		sc.stats.Inc("tq.digest.overflow=1")
+	}
+	if q.refs.Load() < 0 {
+		sc.stats.Inc("tq.digest.claimed")
+	}
 	return fmt.Sprintf("refs=%d ch=%d ovf=%d mode=%s inmap=%s", q.refs.Load(), len(q.ch), ovf, b(mode), b(inmap))
 }
 
@@ -548,11 +557,29 @@ func c13ScriptF2() []string {
 
 // ---- random schedules ----
 
-func (sc *c13Sched) random(r *VRand, nprod int, mode int) {
+func (sc *c13Sched) random(r *VRand, nprod int, mode int, freezeUntil int) {
 	nkeys := len(sc.keys)
 	spawned := 0
-	for step := 0; step < 4000; step++ {
+	for step := 0; step < 20000; step++ {
 		l := sc.parked()
+		if freezeUntil > 0 {
+			// overflow-sized schedules: convoys stay parked until enough tasks are queued
+			acc := 0
+			for _, a := range sc.accepted {
+				acc += len(a)
+			}
+			if acc >= freezeUntil {
+				freezeUntil = 0
+			} else {
+				var pl []*c13Thread
+				for _, th := range l {
+					if th.isProd {
+						pl = append(pl, th)
+					}
+				}
+				l = pl
+			}
+		}
 		canSpawn := spawned < nprod
 		if len(l) == 0 && !canSpawn {
 			break
@@ -647,15 +674,17 @@ func c13RunTq(t *testing.T, stats *VStats) {
 		nkeys := 1 + rr.Intn(3)
 		mode := rr.Intn(3)
 		nprod := 1 + rr.Intn(10)
-		if rr.Chance(0.04) { // overflow-sized burst
-			nprod = UdpTaskQueueLength + 2 + rr.Intn(20)
+		freeze := 0
+		if rr.Chance(0.05) { // overflow-sized: the channel fills up and several tasks spill into the overflow list
+			freeze = UdpTaskQueueLength + 1 + rr.Intn(12)
+			nprod = freeze + rr.Intn(12)
 			nkeys = 1
-			mode = 2
+			mode = rr.Intn(2) * 2
 			stats.Inc("tq.schedules.overflowSized")
 		}
 		stats.Inc(fmt.Sprintf("tq.schedules.mode%d", mode))
 		stats.Inc(fmt.Sprintf("tq.schedules.keys%d", nkeys))
-		c13TqSchedule(t, s, stats, nkeys, func(sc *c13Sched) { sc.random(rr, nprod, mode) })
+		c13TqSchedule(t, s, stats, nkeys, func(sc *c13Sched) { sc.random(rr, nprod, mode, freeze) })
 	}
 	stats.Add("tq.ops", s.N)
 }
